@@ -91,6 +91,9 @@ impl Tracer {
     self.out.write_all(b"\n").unwrap();
     self.lines += 1;
   }
+  pub fn flush(&mut self) {
+    self.out.flush().unwrap();
+  }
   pub fn finish(mut self) -> usize {
     self.out.flush().unwrap();
     self.lines
